@@ -1038,6 +1038,19 @@ class DIMachine(FormatMachine):
                 s.model[f] = copy.deepcopy(op[f])
         return "ok"
 
+    def op_di_inplace(self, op):
+        """disc numbers appended to the object's own default list (no assignment)"""
+        s = self.slot(op)
+        if s is None or not isinstance(s.model.get("disc_numbers"), list) or not isinstance(s.obj.disc_numbers, list):
+            return "noop"
+        if op.get("clear"):
+            del s.obj.disc_numbers[:]
+            s.model["disc_numbers"] = []
+        for n in op.get("append", []):
+            s.obj.disc_numbers.append(n)
+            s.model["disc_numbers"].append(n)
+        return "ok"
+
     def op_di_set(self, op):
         s = self.slot(op)
         if s is None:
